@@ -27,12 +27,88 @@ def norm_text(node_or_text):
     return t[:160]
 
 
+_SKEL_SKIP = ("ctx", "attr", "arg", "name", "id", "lineno", "col_offset", "end_lineno", "end_col_offset", "type_comment", "kind", "value_", "module", "level", "asname")
+
+
+def skeleton(node):
+    """Shape of a statement with every leaf abstracted: node types and arities only (identifiers, attribute names,
+    constants and operator kinds are erased).  Two constructs with equal skeletons differ at most in leaves."""
+    def rec(n):
+        if isinstance(n, (ast.operator, ast.cmpop, ast.unaryop, ast.boolop, ast.expr_context)):
+            return ""
+        if isinstance(n, ast.Name):
+            return "N"
+        if isinstance(n, ast.Constant):
+            return "C"
+        if isinstance(n, ast.Expr) and isinstance(n.value, ast.Constant) and isinstance(n.value.value, str):
+            return ""      # docstring
+        parts = []
+        for f, v in ast.iter_fields(n):
+            if f in _SKEL_SKIP:
+                continue
+            if isinstance(v, list):
+                parts.append("[" + ",".join(rec(x) for x in v if isinstance(x, ast.AST)) + "]")
+            elif isinstance(v, ast.AST):
+                parts.append(rec(v))
+        return type(n).__name__ + "(" + ",".join(parts) + ")"
+    if not isinstance(node, ast.AST):
+        return "?"
+    return " ".join(_tokens(node))
+
+
+def _tokens(node):
+    out = []
+
+    def rec(n):
+        if isinstance(n, (ast.operator, ast.cmpop, ast.unaryop, ast.boolop, ast.expr_context)):
+            return
+        if isinstance(n, ast.Name):
+            out.append("N")
+            return
+        if isinstance(n, ast.Constant):
+            out.append("C")
+            return
+        if isinstance(n, ast.Expr) and isinstance(n.value, ast.Constant) and isinstance(n.value.value, str):
+            return
+        if isinstance(n, ast.UnaryOp) and isinstance(n.op, (ast.USub, ast.UAdd)):
+            rec(n.operand)      # -x and x have the same shape
+            return
+        out.append(type(n).__name__)
+        for f, v in ast.iter_fields(n):
+            if f in _SKEL_SKIP:
+                continue
+            if isinstance(v, list):
+                for x in v:
+                    if isinstance(x, ast.AST):
+                        rec(x)
+            elif isinstance(v, ast.AST):
+                rec(v)
+    rec(node)
+    return out
+
+
+def similar(a, b, threshold=0.72):
+    """Are two skeleton token strings near misses of each other (small edit, same construct)?"""
+    if a == b:
+        return True
+    import difflib
+    ta, tb = a.split(), b.split()
+    if not ta or not tb:
+        return False
+    return difflib.SequenceMatcher(None, ta, tb, autojunk=False).ratio() >= threshold
+
+
 class Ob:
-    """One obligation: a rule instance at a construct with a verdict."""
+    """One obligation: a rule instance at a construct with a verdict.
 
-    __slots__ = ("rule", "clause", "file", "line", "func", "construct", "ok", "detail", "slot")
+    ``ok`` is the semantic verdict of the rule.  A failed obligation is a VIOLATION only if the rule marks it
+    ``positive`` (it recognised the construct and it is wrong) or the failing construct is a *near miss* of the
+    construct confirmed on the reference tree (same skeleton, different leaves); otherwise it is UNDECIDED
+    (unrecognised shape, e.g. after a refactoring) and counts as an analysis error, never as a violation."""
 
-    def __init__(self, rule, clause, fn, node, ok, detail, construct=None, slot=None):
+    __slots__ = ("rule", "clause", "file", "line", "func", "construct", "ok", "detail", "slot", "positive", "skel", "status", "skel_kind", "force_undecided")
+
+    def __init__(self, rule, clause, fn, node, ok, detail, construct=None, slot=None, positive=False, undecided=False):
         self.rule = rule
         self.clause = clause
         if fn is not None:
@@ -47,6 +123,18 @@ class Ob:
         self.detail = detail
         # slot: a stable, line-free name of the rule instance (e.g. "bond.types-delete")
         self.slot = slot or self.construct
+        self.positive = bool(positive)
+        st = node
+        if isinstance(node, ast.AST) and not isinstance(node, (ast.stmt, ast.Module)) and fn is not None and hasattr(fn, "stmt_of"):
+            try:
+                st = fn.stmt_of(node) or node
+            except Exception:
+                st = node
+        self.skel = skeleton(st) if isinstance(st, ast.AST) else "?"
+        self.skel_kind = "def" if isinstance(st, (ast.FunctionDef, ast.AsyncFunctionDef, ast.ClassDef, ast.Module)) else (
+            "compound" if isinstance(st, (ast.If, ast.For, ast.While, ast.With, ast.Try)) else "simple")
+        self.force_undecided = bool(undecided)
+        self.status = "holds" if self.ok else "unclassified"
 
     @property
     def key(self):
@@ -60,13 +148,13 @@ class Ob:
             "function": self.func,
             "construct": self.construct,
             "slot": self.slot,
-            "verdict": "holds" if self.ok else "VIOLATED",
+            "verdict": "holds" if self.ok else ("UNDECIDED" if self.status == "undecided" else "VIOLATED"),
             "detail": self.detail,
         }
 
     def line_text(self):
         return "%-9s %-7s %s:%d %s :: %s  -- %s" % (
-            "ok" if self.ok else "VIOLATED", self.rule, self.file, self.line, self.func, self.construct[:90], self.detail)
+            "ok" if self.ok else ("UNDECIDED" if self.status == "undecided" else "VIOLATED"), self.rule, self.file, self.line, self.func, self.construct[:90], self.detail)
 
 
 class FileObj:
@@ -75,6 +163,36 @@ class FileObj:
     def __init__(self, relpath, qualname):
         self.relpath = relpath
         self.qualname = qualname
+
+
+_REFS = None
+
+
+def load_reference_shapes():
+    global _REFS
+    if _REFS is None:
+        path = os.path.join(VERIF_ROOT, "rules", "reference_shapes.json")
+        try:
+            with open(path) as f:
+                _REFS = json.load(f)
+        except Exception:
+            _REFS = {}
+    return _REFS
+
+
+def classify(obs):
+    """Set ob.status for failed obligations: 'violated' (positive or near miss of the reference construct) or 'undecided'."""
+    refs = load_reference_shapes()
+    for o in obs:
+        if o.ok:
+            o.status = "holds"
+        elif o.force_undecided and not o.positive:
+            o.status = "undecided"
+        elif o.positive or any(similar(o.skel, r, {"def": 1.0, "compound": 0.85, "simple": 0.72}[o.skel_kind]) for r in refs.get(o.key, ())):
+            o.status = "violated"
+        else:
+            o.status = "undecided"
+    return obs
 
 
 def load_known_findings():
